@@ -31,6 +31,8 @@ type PathSpec struct {
 	OrigID    uint32    `json:"origid,omitempty"`
 	Cluster   *[]uint32 `json:"cluster,omitempty"` // nil = attribute absent
 	Source    uint32    `json:"source,omitempty"`  // peer address (IPv4)
+	// Source6 != nil: the peer address is this IPv6 address (high, low 64 bits) instead of Source
+	Source6 *[2]uint64 `json:"source6,omitempty"`
 	NextHop   uint32    `json:"nexthop,omitempty"`
 	Comms     []uint32  `json:"comms,omitempty"`
 	PathID    uint32    `json:"pathid,omitempty"`
@@ -54,10 +56,14 @@ func (s PathSpec) Build() *route.Path {
 		}
 		asp = append(asp, types.ASPathSegment{Type: t, ASNs: append([]uint32{}, sg.ASNs...)})
 	}
+	src := bnet.IPv4(s.Source).Ptr()
+	if s.Source6 != nil {
+		src = bnet.IPv6(s.Source6[0], s.Source6[1]).Ptr()
+	}
 	b := &route.BGPPath{
 		BGPPathA: &route.BGPPathA{
 			NextHop:        bnet.IPv4(s.NextHop).Ptr(),
-			Source:         bnet.IPv4(s.Source).Ptr(),
+			Source:         src,
 			LocalPref:      s.LP,
 			MED:            s.MED,
 			BGPIdentifier:  s.BGPID,
